@@ -84,9 +84,11 @@ func TestWorker(t *testing.T) {
 	}
 }
 
-// watchdog kills the worker when one episode has burnt more than 20 s of CPU
-// time (a goroutine spinning outside every hook) or 300 s of wall time. CPU time
-// is used so that a loaded machine cannot trip it. Exit status 3.
+// watchdog kills the worker when one episode has burnt more than 60 s of CPU
+// time (a goroutine spinning outside every hook) or 600 s of wall time. CPU time
+// is used so that a loaded machine cannot trip it; the heaviest legitimate
+// episodes (C07 enumerations in the thorough tier: up to 3 600 sub-episodes)
+// take 10-20 s, more when hyper-threads are shared. Exit status 3.
 func watchdog(ch chan int, out *os.File) {
 	cur := -1
 	var cpu0 time.Duration
@@ -98,7 +100,7 @@ func watchdog(ch chan int, out *os.File) {
 			cur = id
 			cpu0, wall0 = cpuTime(), time.Now()
 		case <-tick.C:
-			cpuCap, wallCap := 20*time.Second, 300*time.Second
+			cpuCap, wallCap := 60*time.Second, 600*time.Second
 			if RaceBuild {
 				// race-build episodes are page-fault bound and slow down by two orders
 				// of magnitude when the machine is busy
